@@ -5,6 +5,7 @@ import (
 	"go/constant"
 	"go/token"
 	"go/types"
+	"os"
 	"sort"
 	"strings"
 
@@ -670,7 +671,7 @@ func ruleR14analog(c *Ctx, dv *dev, rule string) {
 			}
 		}
 	}
-	if !c.Require(len(ids) == 2, rule, "device.handleABSEvent/identifiers", fmt.Sprintf("expected two direction identifiers in the key-emulation case, found %d", len(ids))) {
+	if !c.Require(len(ids) == 2, rule, "device.handleABSEvent/identifiers", fmt.Sprintf("expected two direction identifiers in the key-emulation case, found %d: %s", len(ids), strings.Join(sortedKeys(ids), " | "))) {
 		return
 	}
 	groups := map[string][2]int{}
@@ -922,9 +923,8 @@ func ruleR15(c *Ctx, dv *dev, rule string) {
 				called := false
 				for j := i + 1; j < len(p.Effects); j++ {
 					e2 := p.Effects[j]
-					if e2.Kind == "next" && sameTerm(e2.Args[0], rng) {
-						break
-					}
+					// (the release may come after the loop: keys listed first and released from the list - the key term
+					// names this very step of the iteration, so a later call with it releases this key)
 					if e2.Kind == "call" && e2.Callee == dv.fn[spec.off] {
 						if spec.off == "NoteOff" {
 							// argument: pointer to an event from which NoteOff computes the iterated key again
@@ -940,6 +940,14 @@ func ruleR15(c *Ctx, dv *dev, rule string) {
 				}
 				if !called {
 					bad = fmt.Sprintf("an iteration over %s does not call %s with the iterated key", spec.tracker, spec.off)
+					if os.Getenv("HIDI_DEBUG") == "R1.5" {
+						fmt.Fprintln(os.Stderr, "---- path", spec.tracker)
+						for j := last + 1; j < len(p.Effects); j++ {
+							if !p.Effects[j].Local {
+								fmt.Fprintln(os.Stderr, "   ", p.Effects[j].String())
+							}
+						}
+					}
 				}
 			}
 			note(k, bad)
